@@ -33,6 +33,23 @@ Theorem barrier_lifecycle_no_deadlock :
 Proof. exact life_no_deadlock_lemma. Qed.
 Print Assumptions barrier_lifecycle_no_deadlock.
 
+(* ... every step decreases a measure (participants: the measure of Properties_C11.v; script: every operation has a cost, a new
+   group costs n(10E+9)+1), hence every run inside the contract can be completed from wherever it stands: every participant of
+   every group returns from all its enters, destroy frees the object, the script ends *)
+Theorem barrier_lifecycle_step_decreases :
+  forall (gm : bool) (sc : list lop) (sched : list nat) (i : nat) (l' : lstate),
+    okscript gm MD false 0%Z sc = true ->
+    lstep (lexec (lstart gm sc) sched) i = Some l' -> (lmeas l' < lmeas (lexec (lstart gm sc) sched))%nat.
+Proof. exact life_step_decreases_lemma. Qed.
+Print Assumptions barrier_lifecycle_step_decreases.
+
+Theorem barrier_lifecycle_completes :
+  forall (gm : bool) (sc : list lop) (sched : list nat),
+    okscript gm MD false 0%Z sc = true ->
+    exists rest, lfinished (lexec (lstart gm sc) (sched ++ rest)) = true.
+Proof. exact life_completes_lemma. Qed.
+Print Assumptions barrier_lifecycle_completes.
+
 (* a barrier whose participants have all returned is exactly in the state qt_barrier_create leaves it in *)
 Theorem barrier_quiescent_is_fresh :
   forall (n E : nat) (sched : list nat),
